@@ -106,8 +106,10 @@ func init() {
 
 // fmt.Sprintf: only the format "%9d" (ORIGIN line index) is given a contract:
 // for 0 <= v < 10^9 the result is v right-aligned in 9 columns.
-const dig9Def = `(define-fun p10 ((e Int)) Int (ite (<= e 0) 1 (ite (= e 1) 10 (ite (= e 2) 100 (ite (= e 3) 1000 (ite (= e 4) 10000 (ite (= e 5) 100000 (ite (= e 6) 1000000 (ite (= e 7) 10000000 100000000)))))))))
-(define-fun dig9 ((v Int) (k Int)) Int (ite (and (< v (p10 (- 8 k))) (< k 8)) 32 (+ 48 (mod (div v (p10 (- 8 k))) 10))))`
+// dig9(v, k) is uninterpreted for the solver: the proofs only need that the same (v, k) give
+// the same byte.  Its meaning (documented in the contract files and used by the replay
+// oracle): byte k of v printed right-aligned in 9 columns.
+const dig9Def = `(declare-fun dig9 (Int Int) Int)`
 
 func (c *FnCtx) useDig9() {
 	if !c.declared["dig9"] {
@@ -295,6 +297,7 @@ func (c *FnCtx) ghostIntSet(st *State, name, val string) {
 	c.heapSym(st, key, "Int", 1)
 	nw := c.newHeapVersion(key)
 	c.declared[nw] = true
+		c.isMacro[nw] = true
 	c.emit(fmt.Sprintf("(define-fun %s ((z Int)) Int %s)", nw, val))
 	st.heaps[key] = nw
 }
@@ -375,5 +378,169 @@ func init() {
 		c.assume(st, sAnd(sx("<=", "0", n), sx("<=", n, p.ln())))
 		c.ghost["lastReadN"] = Val{K: KInt, S: n, T: types.Typ[types.Int]}
 		return Val{K: KTuple, F: []Val{{K: KInt, S: n, T: types.Typ[types.Int]}, {K: KIfc, S: c.fresh("err", "Ifc")}}}
+	}
+}
+
+// ---------------------------------------------------------------------------
+// go-pars primitives (C07).  The input is unconstrained: every token may have any length and
+// content.  Request(n) needs n >= 0 (a negative request makes Buffer slice backwards);
+// Buffer() has exactly the requested length when the request succeeded.
+
+func (c *FnCtx) havocPtrStruct(st *State, elem types.Type) {
+	pk := "P_" + c.elemKey(elem)
+	c.w.proto(elem, "", func(path, sort string) string {
+		heapSorts[pk+path] = sort
+		c.havocHeap(st, pk+path)
+		return ""
+	})
+}
+
+func (c *FnCtx) resultType() types.Type {
+	for _, imp := range c.pkg.Types.Imports() {
+		if imp.Path() == "github.com/go-pars/pars" {
+			if o := imp.Scope().Lookup("Result"); o != nil {
+				return o.Type()
+			}
+		}
+	}
+	return nil
+}
+
+func init() {
+	const P = "github.com/go-pars/pars."
+	errRes := func(c *FnCtx) Val { return Val{K: KIfc, S: c.fresh("err", "Ifc")} }
+	externs["(*"+P+"State).Request"] = func(c *FnCtx, st *State, call *ast.CallExpr, recv *Val, args []Val) Val {
+		c.oblige(st, "pre", sx("<=", "0", args[0].S), "State.Request needs a non-negative size: "+nodeStr(call), call.Pos())
+		c.ghostIntSet(st, "req", args[0].S)
+		e := errRes(c)
+		c.ghostIntSet(st, "reqok", sIte(sx("=", sx("tag", e.S), "0"), "1", "0"))
+		return e
+	}
+	externs["("+P+"State).Buffer"] = func(c *FnCtx, st *State, call *ast.CallExpr, recv *Val, args []Val) Val {
+		out := c.freshVal(c.typeOf(call), "buf")
+		for _, f := range c.typeFacts(out) {
+			c.assume(st, f)
+		}
+		c.refsBelow(st, out, st.alloc)
+		req := c.ghostIntGet(st, "req")
+		c.assume(st, sAnd(sx("<=", out.ln(), req), sImp(sx("=", c.ghostIntGet(st, "reqok"), "1"), sx("=", out.ln(), req))))
+		return out
+	}
+	nop := func(c *FnCtx, st *State, call *ast.CallExpr, recv *Val, args []Val) Val {
+		t := c.typeOf(call)
+		if t == nil {
+			return Val{K: KUnit}
+		}
+		if tup, ok := t.(*types.Tuple); ok && tup.Len() == 0 {
+			return Val{K: KUnit}
+		}
+		v := c.freshVal(t, "r")
+		for _, f := range c.typeFacts(v) {
+			c.assume(st, f)
+		}
+		return v
+	}
+	for _, m := range []string{"Advance", "Push", "Pop", "Drop", "Clear"} {
+		externs["(*"+P+"State)."+m] = nop
+		pureExterns["(*"+P+"State)."+m] = true
+	}
+	externs["("+P+"State).Position"] = nop
+	pureExterns["("+P+"State).Position"] = true
+	pureExterns["("+P+"State).Buffer"] = true
+	externs[P+"Next"] = nop
+	externs[P+"Skip"] = nop
+	pureExterns[P+"Next"] = true
+	pureExterns[P+"Skip"] = true
+	// parsers writing their result
+	setResult := func(c *FnCtx, st *State, res Val, token *Val, value *Val) {
+		rt := c.resultType()
+		if rt == nil || res.K != KPtr {
+			return
+		}
+		cur := c.readPtr(st, rt, res.S)
+		nv := cur
+		nv.F = append([]Val(nil), cur.F...)
+		z := c.w.zero(rt)
+		for i, n := range cur.Names {
+			switch n {
+			case "Token":
+				if token != nil {
+					nv.F[i] = *token
+				} else {
+					nv.F[i] = z.F[i]
+				}
+			case "Value":
+				if value != nil {
+					nv.F[i] = *value
+				} else {
+					nv.F[i] = z.F[i]
+				}
+			case "Children":
+				nv.F[i] = z.F[i]
+			}
+		}
+		c.writePtr(st, rt, res.S, nv)
+	}
+	externs[P+"Line"] = func(c *FnCtx, st *State, call *ast.CallExpr, recv *Val, args []Val) Val {
+		rt := c.resultType()
+		if rt != nil {
+			if f, ok := c.w.zero(rt).field("Token"); ok {
+				tok := c.freshVal(f.T, "line")
+				for _, fc := range c.typeFacts(tok) {
+					c.assume(st, fc)
+				}
+				c.refsBelow(st, tok, st.alloc)
+				setResult(c, st, args[1], &tok, nil)
+			}
+		}
+		return Val{K: KIfc, S: "nilIfc"}
+	}
+	externs[P+"Int"] = func(c *FnCtx, st *State, call *ast.CallExpr, recv *Val, args []Val) Val {
+		e := errRes(c)
+		n := c.fresh("int", "Int")
+		boxed := c.box(Val{K: KInt, S: n, T: types.Typ[types.Int]}, types.Typ[types.Int])
+		val := Val{K: KIfc, S: sIte(sx("=", sx("tag", e.S), "0"), boxed.S, c.fresh("val", "Ifc"))}
+		setResult(c, st, args[1], nil, &val)
+		return e
+	}
+	for _, m := range []string{"SetToken", "SetValue", "SetChildren"} {
+		m := m
+		externs["(*"+P+"Result)."+m] = func(c *FnCtx, st *State, call *ast.CallExpr, recv *Val, args []Val) Val {
+			switch m {
+			case "SetToken":
+				setResult(c, st, *recv, &args[0], nil)
+			case "SetValue":
+				setResult(c, st, *recv, nil, &args[0])
+			default:
+				setResult(c, st, *recv, nil, nil)
+			}
+			return Val{K: KUnit}
+		}
+	}
+	externs["strings.Repeat"] = func(c *FnCtx, st *State, call *ast.CallExpr, recv *Val, args []Val) Val {
+		c.oblige(st, "pre", sx("<=", "0", args[1].S), "strings.Repeat needs a non-negative count: "+nodeStr(call), call.Pos())
+		s := c.fresh("rep", "Str")
+		c.assume(st, sx("=", sx("slen", s), sx("*", sx("slen", args[0].S), args[1].S)))
+		return Val{K: KStr, S: s, T: types.Typ[types.String]}
+	}
+	pureExterns["strings.Repeat"] = true
+	externs["strings.IndexByte"] = func(c *FnCtx, st *State, call *ast.CallExpr, recv *Val, args []Val) Val {
+		s, b := args[0], args[1]
+		r := c.fresh("idx", "Int")
+		c.assume(st, sAnd(sx("<=", "(- 1)", r), sx("<", r, sx("slen", s.S))))
+		c.assume(st, sImp(sx(">=", r, "0"), sx("=", sx("sat", s.S, r), b.S)))
+		return Val{K: KInt, S: r, T: types.Typ[types.Int]}
+	}
+	externs["bytes.HasPrefix"] = func(c *FnCtx, st *State, call *ast.CallExpr, recv *Val, args []Val) Val {
+		s, p := args[0], args[1]
+		r := c.fresh("hasprefix", "Bool")
+		h := c.heapSym(st, c.elemKey(types.Typ[types.Uint8]), "Int", 2)
+		c.assume(st, sImp(r, sx("<=", p.ln(), s.ln())))
+		c.assume(st, sImp(r, fmt.Sprintf("(forall ((j Int)) (! (=> (and (<= %s j) (< j (+ %s %s))) (= (%s %s j) (%s %s (+ %s (- j %s))))) :pattern ((%s %s j))))",
+			s.off(), s.off(), p.ln(), h, s.ref(), h, p.ref(), p.off(), s.off(), h, s.ref())))
+		w := c.fresh("pfxw", "Int")
+		c.assume(st, sImp(sNot(r), sOr(sx(">", p.ln(), s.ln()),
+			sAnd(sx("<=", "0", w), sx("<", w, p.ln()), sNot(sx("=", sx(h, s.ref(), sx("+", s.off(), w)), sx(h, p.ref(), sx("+", p.off(), w))))))))
+		return vBool(r)
 	}
 }
